@@ -8,13 +8,14 @@
    every selected row by key, which is the same as deleting the selected rows), the live datasets (the
    dataset_id foreign key, ON DELETE CASCADE), the registered collections and dataset types.
    The overlap predicate is the REGENERATED `py_overlaps` of Gen/TimespanGen.v (C11 proves that the SQL form the
-   SELECT uses equals it); the difference is the C11 hand model `diff GEN_MAX`.
+   SELECT uses equals it); the difference is the REGENERATED `py_difference` of Gen/CalibDiffGen.v (translator
+   harness/translators/calib_diff.py; Proofs/CalibProofs.v proves it equal to the C11 hand model `diff GEN_MAX`).
 
    `chk` is the batch-distinctness check added by /repo commit 8f28e85 ("more than one dataset with data ID"):
    the faithful model is `chk = true`; `chk = false` is the code before the repair.
    No proofs here. *)
 From Coq Require Import ZArith NArith List Bool.
-From V Require Import Gen.TimespanGen Model.Timespan.
+From V Require Import Gen.TimespanGen Gen.CalibDiffGen Model.Timespan.
 Import ListNotations.
 Open Scope N_scope.
 
@@ -113,7 +114,7 @@ Definition certify (chk : bool) (s : state) (c : N) (refs : list ref) (t : Times
 (* SqlRegistry.decertify + manager.decertify: delete the overlapping rows, re-insert what
    Timespan.difference leaves of each *)
 Definition pieces (t : TimespanGen.ts) (r : crow) : list crow :=
-  map (fun p => mkRow (r_coll r) (r_ty r) (r_did r) (r_ds r) p) (diff GEN_MAX (r_ts r) t).
+  map (fun p => mkRow (r_coll r) (r_ty r) (r_did r) (r_ds r) p) (py_difference (r_ts r) t).
 Definition decertify_rows (c ty : N) (t : TimespanGen.ts) (sel : option (list N)) (l : list crow) : list crow :=
   filter (fun r => negb (hit c ty t sel r)) l ++ flat_map (pieces t) (filter (hit c ty t sel) l).
 Definition decertify (s : state) (c ty : N) (t : TimespanGen.ts) (sel : option (list N)) : state * outcome :=
